@@ -338,6 +338,9 @@ fn endless() -> Vec<Case> {
         mk("chunk-size-digits", Route::Direct, CHUNKED_HEAD, b"1", Terminal::Bytes, Some(bound), false),
         mk("chunk-size-zeros", Route::Direct, CHUNKED_HEAD, b"0", Terminal::Bytes, Some(bound), false),
         mk("chunk-extension", Route::Direct, b"HTTP/1.1 200 OK\r\nTransfer-Encoding: chunked\r\n\r\n5;", b"ext=1;", Terminal::Bytes, Some(bound), false),
+        mk("trailer-line-no-lf", Route::Direct, b"HTTP/1.1 200 OK\r\nTransfer-Encoding: chunked\r\n\r\n5\r\nhello\r\n0\r\n", b"X", Terminal::Bytes, Some(bound), false),
+        mk("trailer-fields", Route::Direct, b"HTTP/1.1 200 OK\r\nTransfer-Encoding: chunked\r\n\r\n5\r\nhello\r\n0\r\n", b"X-T: v\r\n", Terminal::Bytes, Some(bound), false),
+        mk("blank-lines-before-size", Route::Direct, b"HTTP/1.1 200 OK\r\nTransfer-Encoding: chunked\r\n\r\n5\r\nhello\r\n", b"\r\n", Terminal::Bytes, Some(bound), false),
         mk("connect-status-line", Route::Connect, b"HTTP/1.1 200 ", b"A", Terminal::Bytes, Some(bound), false),
         mk("connect-header-fields", Route::Connect, b"HTTP/1.1 200 OK\r\n", b"X-A: b\r\n", Terminal::Bytes, Some(bound), false),
         mk("connect-invalid-name-fields", Route::Connect, b"HTTP/1.1 200 OK\r\n", b"@: x\r\n", Terminal::Bytes, Some(bound), false),
